@@ -114,6 +114,11 @@ def check(repo: Repo, rep: Report) -> None:
     rec = [s for s in sites(tf) if last_var and isinstance(s.node, ast.Assign) and cell_name(s.node.targets[0]) == last_var and isinstance(s.node.value, ast.Name)]
     rep.ob("R3-throttle-first", tf, "emit iff first or now - last >= duration", ok,
            "throttle_first does not emit exactly when at least the window duration has passed since the last emitted element")
+    nowdefs = [s for s in sites(tf) if isinstance(s.node, ast.Assign) and isinstance(s.node.value, ast.Attribute) and s.node.value.attr == "now"]
+    conv = [n for g_ in root_tf.walk() if g_.is_func for n in g_.direct_nodes() if isinstance(n, ast.Call) and isinstance(n.func, ast.Attribute) and n.func.attr == "to_seconds"]
+    rep.ob("R3-throttle-first", tf, "elapsed time computed on the scheduler's own time values (no float seconds)", bool(nowdefs) and not conv,
+           "throttle_first converts clock readings / the window to float seconds before subtracting: when the gap equals the window on a "
+           "fractional timeline the rounded difference falls short (0.3 - 0.1 < 0.2) and the element due exactly one window later is dropped")
     rep.ob("R3-throttle-first", tf, "last emission time recorded in the deciding branch", bool(rec) and bool(dec) and rec[0].ctx.branch == dec[0].ctx.branch,
            "the time of the last emission is not recorded together with the decision to emit")
     # sample
@@ -122,8 +127,11 @@ def check(repo: Repo, rep: Report) -> None:
     src_next = sroot.child("on_next")
     rep.require(src_next is not None, "sample: source element handler")
     present = names_assigned_const(src_next, True)
-    rep.require(len(present) == 1, "sample: presence flag")
-    flag = present[0]
+    flag = present[0] if len(present) == 1 else "?presence-flag"
+    if len(present) != 1:
+        rep.ob("R4-sample-once", src_next, "sample: the source handler raises one presence flag per element", False,
+               "sample does not record the arrival of an element in a presence flag: whether there is something to sample is decided "
+               "by the value itself (a None element is never sampled)")
     em = [s for g, s, k in TC.downstream_sites(sroot, ("on_next",)) if g is ss]
     rs = [s for s in sites(ss) if isinstance(s.node, ast.Assign) and cell_name(s.node.targets[0]) == flag and u(s.node.value) == "False"]
     ok = len(em) == 1 and len(rs) == 1 and em[0].ctx.branch == rs[0].ctx.branch and any(p_ and cell_name(e_) == flag for e_, p_ in em[0].ctx.guards)
